@@ -945,7 +945,7 @@ def run_prog(pre, cfg, field, layout, argv, err, phred, col, found, pool_info):
                         col.count("phred_prog_rows_checked", len(rows))
                     if bad:
                         found.append(("probability-encoding-wrong", "%s: read_dists (base error rate %r%s): %s" % (where, err, ", base qualities used" if phred else "", bad)))
-                    if got != want and calls_ok:
+                    if got != want and calls_ok and not bad:
                         # read_calls is the filtered pileup but the (row, count) pairs handed to inference are not
                         miss = list((want - got).elements())[:3]
                         extra = list((got - want).elements())[:3]
